@@ -7,6 +7,10 @@ ENGINES = [
 NOTES = "All checks: /venv/bin/python /verif/check.py <ID> --tier quick|thorough. They import wannierberri from /repo's working tree (no build step)."
 NOT_APPLICABLE = {}
 CHECKS = {
+ "C24": {"level": "exploration",
+         "technique": "exhaustive small-scope enumeration of frozen x outer window pairs x init x iterations on the real wannierise, against a reference selection model",
+         "text": "all frozen x outer window pairs over a complete edge alphabet (including edges cutting engineered multiplets of 2 and 3) x init mode (amn, random, restart, restart without windows) x num_iter x localise x mix_ratio_z, plus explicit frozen_states, on synthetic in-memory Wannier90 data generated from a hidden tight-binding model; at every k: V^dagger V = 1, every reference-frozen band fully in the span, zero rows outside the outer selection (1e-10)",
+         "note": "small synthetic data (NB<=5, NW<=3, meshes <=2x2x2), spectra from a level alphabet with gaps {0, 0.005, >=0.3}, no tie edges, threshold 1e-2, sitesym=False, parallel=False; only window pairs satisfying wannierise's own preconditions; one wannierise representative per class of windows mapped to identical masks by the real select_window_degen"},
  "C11": {"level": "fault_enumeration", "engine": "refine-bfs",
          "technique": "exhaustive enumeration of stop points x restart splits x storage modes x directory-listing permutations on the real run()",
          "text": "for steered refinements of N=2..3 (quick) / 2..4 (thorough) iterations on 1D/2D/3D/symmetric grids, every stopping point, every composition of the remaining iterations into restart segments, both storage modes (allow_restart, dump_results) and every permutation of the factors_iter-* directory listing at every restart (the glob seen by run_grid is a choice point of the schedule explorer) are executed as chains of real run() calls in one directory; every result saved or returned after a restart must equal the uninterrupted run's result for the same global iteration",
